@@ -1,6 +1,7 @@
 import SlotVerif.Proofs.Snapshot
 import SlotVerif.Proofs.UnionFind
 import SlotVerif.Proofs.EqEquiv
+import SlotVerif.Proofs.InvContract
 /-!
 # C08 — No operation sequence panics or leaves the e-graph inconsistent
 
@@ -165,6 +166,24 @@ theorem eq_is_equivalence {s : Snap} {c : SClass} (hcls : Snap.cls s c.id = some
   ⟨fun _ _ ha hA => Snap.eq_refl hcls hv ha hA,
    fun _ _ _ _ ha hb hA hB h => Snap.eq_symm hcls hv ha hb hA hB h,
    fun _ _ _ _ _ _ ha hb hd hA hB hD h1 h2 => Snap.eq_trans hcls hv ha hb hd hA hB hD h1 h2⟩
+
+/-- **on every state that passes `checkInv`, `eq` is an equivalence relation on every class**: the invariant supplies the
+hypothesis of `eq_is_equivalence` (stored generators are permutations of the class slots, `gensOK_valid`) -/
+theorem eq_equivalence_of_inv {s : Snap} (h : checkInv s = true) {c : SClass} (hc : c ∈ s.classes)
+    (hcls : Snap.cls s c.id = some c) :
+    (∀ a A, Snap.find s a = some ⟨c.id, A⟩ → Snap.IsEmb c.slots A → Snap.eq s a a = some true) ∧
+    (∀ a b A B, Snap.find s a = some ⟨c.id, A⟩ → Snap.find s b = some ⟨c.id, B⟩ → Snap.IsEmb c.slots A →
+      Snap.IsEmb c.slots B → Snap.eq s a b = some true → Snap.eq s b a = some true) ∧
+    (∀ a b d A B D, Snap.find s a = some ⟨c.id, A⟩ → Snap.find s b = some ⟨c.id, B⟩ → Snap.find s d = some ⟨c.id, D⟩ →
+      Snap.IsEmb c.slots A → Snap.IsEmb c.slots B → Snap.IsEmb c.slots D →
+      Snap.eq s a b = some true → Snap.eq s b d = some true → Snap.eq s a d = some true) :=
+  eq_is_equivalence hcls (Snap.gensOK_valid (checkInv_class h hc).2.2.1)
+
+/-- … and the leader entry of every live class is the identity on the class slots (the hypothesis `hold` of the C13
+theorems about shrink and merge) -/
+theorem leader_entry_of_inv {s : Snap} (h : checkInv s = true) {c : SClass} (hc : c ∈ s.classes)
+    (ha : Snap.isAlive s c.id = true) : s.uf[c.id]? = some ⟨c.id, SlotMap.identity c.slots⟩ :=
+  Snap.leader_entry_identity (checkInv_ufOK h) (checkInv_class h hc).2.1 ha
 
 /-- invocations that canonicalise to different leaders never compare equal -/
 theorem eq_false_of_different_leaders {s : Snap} {a b a' b' : AppId} (ha : Snap.find s a = some a')
